@@ -148,8 +148,101 @@ def kernels(tier):
     return ks
 
 
+def gimbal_kernels():
+    """to_euler for every order and matrix type (+ the matching from_euler, used only to build near-singular rotations for native confirmation)"""
+    from run import K
+    ks = []
+    for T, rd, wr, elem, n in (("Mat3", "m3", "wm3", 4, 9), ("Mat3A", "m3a", "wm3a", 4, 9), ("Mat4", "m4", "wm4", 4, 16), ("DMat3", "dm3", "wdm3", 8, 9), ("DMat4", "dm4", "wdm4", 8, 16)):
+        f1, w1 = ("f", "w1") if elem == 4 else ("d", "wd")
+        for base in ORDERS:
+            for ex in ("", "Ex"):
+                name = base + ex
+                k = K(f"{T.lower()}_to_euler_{name.lower()}", n, 3, f"let (a, b, c) = {rd}(i, 0).to_euler(EulerRot::{name}); {w1}(o, 0, a); {w1}(o, 1, b); {w1}(o, 2, c);", None, elem=elem,
+                      site=f"{T}::to_euler({name})", desc=f"{T}::to_euler({name}): the gimbal-lock branch is taken exactly when sqrt(sum of the two squared entries) <= 16 * EPSILON")
+                k.order, k.typ = name, T
+                ks.append(k)
+                k2 = K(f"{T.lower()}_from_euler_h_{name.lower()}", 3, n, f"{wr}(o, 0, {T}::from_euler(EulerRot::{name}, {f1}(i, 0), {f1}(i, 1), {f1}(i, 2)));", None, elem=elem, site="helper")
+                k2.helper = True
+                ks.append(k2)
+    return ks
+
+
+def gimbal_run(cfg, seed):
+    """restated guard (syntactic, on the mode-U path conditions of the optimised IR) + native confirmation on near-singular rotations when the guard has another shape"""
+    import math, json, random
+    from fractions import Fraction
+    import run as e2run, ir, enc
+    ks = gimbal_kernels()
+    lls, so = e2run.build("c09g", cfg, ks, os.path.join(e2run.BUILD, "work", "e2", f"build-c09g-{cfg}.log"))
+    got = e2run._interp_u(lls, [k for k in ks if not getattr(k, "helper", False)])
+    nat = enc.Native(so)
+    rng = random.Random(seed + 99)
+    out = []
+    for k in ks:
+        if getattr(k, "helper", False):
+            continue
+        res = dict(site=k.site, kernel=k.name, cfg=cfg, status="pass", detail="", secs=0.0, queries=1, paths=0, validated=0, desc=k.desc)
+        g = got[k.name]
+        eps16 = Fraction(16) * (Fraction(2) ** (-23 if k.elem == 4 else -52))
+        ok = False
+        if not isinstance(g, tuple):
+            res["paths"] = len(g)
+            cmps = set()
+
+            def walk(c):
+                if c[0] == "fcmp":
+                    for a, b in ((c[2], c[3]), (c[3], c[2])):
+                        if b[0] == "c" and b[1] > 0:
+                            cmps.add((c[1], a, b[1]))
+                elif c[0] in ("not", "and", "or"):
+                    for x in c[1:]:
+                        walk(x)
+            for pc, _ in g:
+                for c in pc:
+                    walk(c)
+            if len(cmps) == 1:
+                pred, t, c = next(iter(cmps))
+                ok = (c == eps16 and t[0] == "sqrt" and t[1][0] == "fadd" and all(x[0] == "fmul" and x[1] == x[2] and x[1][0] == "in" for x in t[1][1:3]))
+        if not ok:
+            # native confirmation: a rotation whose middle angle is 1e-4 (f32) / 1e-9 (f64) away from the singularity must NOT take the degenerate branch
+            delta = 1e-4 if k.elem == 4 else 1e-9
+            rep = k.order[0] == k.order[2]
+            found = None
+            for _ in range(200):
+                a, c = rng.uniform(-2, 2), rng.uniform(0.3, 2)
+                b = (rng.choice([0.0, math.pi]) + rng.choice([-1, 1]) * delta) if rep else (rng.choice([-1, 1]) * (math.pi / 2 - delta))
+                n = 9 if "mat3" in k.name else 16
+                m = nat.call(f"k_{k.typ.lower()}_from_euler_h_{k.order.lower()}", [a, b, c], n, k.elem)
+                e = nat.call("k_" + k.name, m, 3, k.elem)
+                if e[0] == 0.0 or e[2] == 0.0:
+                    found = ([a, b, c], e)
+                    break
+            if found:
+                res.update(status="fail", reproduced=True, inputs=found[0], native=found[1], label="gimbal guard",
+                           detail=f"the gimbal-lock test is not `sqrt(x^2 + y^2) > 16*EPSILON`, and the degenerate branch is taken {delta} rad away from the singularity: angles={found[0]} -> to_euler={found[1]}")
+            else:
+                res.update(status="inconclusive", detail="the gimbal-lock test does not have the documented shape `sqrt(x^2 + y^2) > 16*EPSILON` in the optimised IR, but no native misbehaviour was found")
+        out.append(res)
+    return out
+
+
 def e2_run(tier, seed):
-    return _e2("C09", kernels(tier), tier, seed, cfgs=("sse2", "scalar"))
+    import json
+    out = _e2("C09", kernels(tier), tier, seed, cfgs=("sse2", "scalar"))
+    for cfg in ("sse2", "scalar"):
+        try:
+            rs = gimbal_run(cfg, seed)
+        except Exception as e:
+            out.append(dict(site=f"e2-gimbal-{cfg}", status="broken", detail=str(e)[:600], cfg=cfg, secs=0))
+            continue
+        for r in rs:
+            if r["status"] == "fail":
+                path = os.path.join(VERIF, "evidence", "replays", "C09", f"e2-{r['kernel']}-{cfg}.json")
+                os.makedirs(os.path.dirname(path), exist_ok=True)
+                json.dump(dict(property="C09", engine="E2-U", kernel=r["kernel"], cfg=cfg, inputs=r.get("inputs"), native=r.get("native"), detail=r["detail"]), open(path, "w"), indent=1)
+                r["replay_path"] = path
+            out.append(r)
+    return out
 
 
 def harnesses(tier, cfg):
